@@ -1080,7 +1080,10 @@ class Repository:
             )
 
     def _flatten_resolve_paths(self, paths):
-        return list(flatten_paths(path.resolve(strict=True) for path in paths))
+        # The same file can be reached more than once (repeated or overlapping
+        # arguments), but it must be processed only once
+        flattened = flatten_paths(path.resolve(strict=True) for path in paths)
+        return list(dict.fromkeys(flattened))
 
     async def snapshot(self, *, paths, note=None, rate_limit=None):
         self.display_status('Collecting files')
